@@ -63,4 +63,18 @@ META['C01'] = {
     'technique': 'Coq proof of parser-inverts-layout + byte-exact extracted serialiser model with per-output certificate',
 }
 
+META['C18'] = {
+    'text': ("Machine-checked proof (Coq), for any hash function with 32-byte output, over all cell trees without "
+             "pruned/Merkle cells and all sets of pruned positions: pruneCells preserves the level-0 representation hash "
+             "and depth (using the declarative hash of C02), each pruned-branch cell is 01 01|hash_0|depth_0 of the subtree "
+             "it replaces, CreateProof's root is a level-0 Merkle-proof cell carrying the original root's hash/depth over a "
+             "child with exactly that level-0 hash, cells on unpruned paths keep their data (the value stays readable), and "
+             "ProveKeyInHashmap yields a proof only when the walked labels spell the key. The extracted model (label walk + "
+             "prune + serialiser) reproduces the implementation's proof bytes exactly."),
+    'design_ref': 'DESIGN.md §6 C18',
+    'note': ("Trusted: Coq kernel, extraction, drivers, Go harness, the C02 spec. Pruning by pointer identity is resolved "
+             "to positions by the harness."),
+    'technique': 'Coq induction over cell trees on top of the C02 hash spec + byte-exact extracted-model correspondence',
+}
+
 NOT_APPLICABLE = []
